@@ -172,7 +172,60 @@ func rulePAIR1(w *World) []Ob {
 				}
 			}
 		})
-		if okCmp && loopsOverField(fn, "children") {
+		// the same search spelled with a library helper: slices.IndexFunc(n.children, func(c *Node) bool { return c.name == text })
+		libSearch := false
+		allInstrs(fn, func(in ssa.Instruction) {
+			c, ok := in.(*ssa.Call)
+			if !ok || c.Common().StaticCallee() == nil || len(c.Common().Args) != 2 {
+				return
+			}
+			name := c.Common().StaticCallee().String()
+			if o := c.Common().StaticCallee().Origin(); o != nil {
+				name = o.String()
+			}
+			if name != "slices.IndexFunc" && name != "slices.ContainsFunc" {
+				return
+			}
+			if _, f, isF := fieldOfLoad(c.Common().Args[0]); !isF || f != "children" {
+				return
+			}
+			mc, ok := resolve(c.Common().Args[1]).(*ssa.MakeClosure)
+			if !ok {
+				return
+			}
+			pred := mc.Fn.(*ssa.Function)
+			allInstrs(pred, func(in2 ssa.Instruction) {
+				b, ok := in2.(*ssa.BinOp)
+				if !ok || b.Op.String() != "==" {
+					return
+				}
+				for _, pair := range [][2]ssa.Value{{b.X, b.Y}, {b.Y, b.X}} {
+					_, f1, ok1 := fieldOfLoad(pair[0])
+					if !ok1 || f1 != "name" {
+						continue
+					}
+					// the other side is the captured text parameter
+					if ld, isL := isLoad(stripConv(pair[1])); isL {
+						if fv, isFV := ld.(*ssa.FreeVar); isFV {
+							for i, q := range pred.FreeVars {
+								if q == fv && i < len(mc.Bindings) {
+									if al, isAl := mc.Bindings[i].(*ssa.Alloc); isAl {
+										if st := initStore(al); st != nil {
+											if _, isP := st.Val.(*ssa.Parameter); isP {
+												libSearch = true
+											}
+										}
+									}
+								}
+							}
+						}
+					}
+				}
+			})
+		})
+		if libSearch {
+			l.ok(p.FuncID(fn), "lookup compares text with child.name over children", p.Pos(fn.Pos()), "slices.IndexFunc / ContainsFunc over n.children with the predicate child.name == text", true, "lookup")
+		} else if okCmp && loopsOverField(fn, "children") {
 			l.ok(p.FuncID(fn), "lookup compares text with child.name over children", p.Pos(fn.Pos()), "text == child.name inside a loop over n.children", true, "lookup")
 		} else {
 			l.bad(p.FuncID(fn), "lookup compares text with child.name over children", p.Pos(fn.Pos()), "findChildByText no longer compares its argument for equality with each child's name", "lookup")
@@ -438,10 +491,231 @@ func rulePAIR2(w *World) []Ob {
 	return l.list
 }
 
+// stackSliceObligations: when the stack of open nodes is kept in a slice, entries above the current node are dead once
+// the document has stepped back up.  (R1) an element is read only below the live size — the counter field if the type
+// has one, len(slice) otherwise; a test against the slice's length when a counter exists admits dead entries.
+// (R2) the attach function shrinks the stack on every successful route (a re-slice stored back, the counter assigned,
+// or pop called) — overwriting one slot and leaving the ones above lets a later, too deeply nested item find a stale
+// parent instead of being rejected.  With container/list (push / pop only) neither applies.
+func stackSliceObligations(p *Prog, l *obs) {
+	var sliceField, countField = -1, -1
+	var stackType types.Type
+	for _, fn := range libFuncs(p) {
+		if recvTypeName(fn) != "stack" || fn.Signature.Recv() == nil {
+			continue
+		}
+		t := fn.Signature.Recv().Type()
+		if pt, ok := t.Underlying().(*types.Pointer); ok {
+			t = pt.Elem()
+		}
+		st, ok := t.Underlying().(*types.Struct)
+		if !ok {
+			continue
+		}
+		stackType = t
+		for i := 0; i < st.NumFields(); i++ {
+			switch ft := st.Field(i).Type().Underlying().(type) {
+			case *types.Slice:
+				if isNodePtr(ft.Elem()) {
+					sliceField = i
+				}
+			case *types.Basic:
+				if ft.Info()&types.IsInteger != 0 {
+					countField = i
+				}
+			}
+		}
+		break
+	}
+	if stackType == nil || sliceField < 0 {
+		return // a list-backed stack: nothing to decide
+	}
+	isField := func(v ssa.Value, idx int) bool {
+		ld, ok := isLoad(stripConv(v))
+		if !ok {
+			return false
+		}
+		fa, ok := ld.(*ssa.FieldAddr)
+		return ok && fa.Field == idx && recvTypeName2(fa.X.Type()) == "stack"
+	}
+	for _, fn := range libFuncs(p) {
+		if recvTypeName(fn) != "stack" {
+			continue
+		}
+		fn := fn
+		num := numbered{}
+		// R1
+		allInstrs(fn, func(in ssa.Instruction) {
+			ia, ok := in.(*ssa.IndexAddr)
+			if !ok || !isField(ia.X, sliceField) {
+				return
+			}
+			// a read?
+			read := false
+			for _, r := range *ia.Referrers() {
+				if u, ok := r.(*ssa.UnOp); ok && u.Op == token.MUL {
+					read = true
+				}
+			}
+			if !read {
+				return
+			}
+			construct := num.name("stack element read " + describeValue(ia.Index))
+			okLive, onlyLen := false, false
+			for _, g := range guardsOf(in.Block()) {
+				c, pol := flattenCond(g.Cond, g.Pol)
+				b, isB := c.(*ssa.BinOp)
+				if !isB {
+					continue
+				}
+				op, x, y := b.Op, b.X, b.Y
+				if !pol {
+					op = negateOp(op)
+				}
+				// idx < live  /  live > idx
+				var bound ssa.Value
+				switch {
+				case stripNum(x) == stripNum(ia.Index) && (op == token.LSS):
+					bound = y
+				case stripNum(y) == stripNum(ia.Index) && (op == token.GTR):
+					bound = x
+				default:
+					continue
+				}
+				if countField >= 0 {
+					if isField(bound, countField) {
+						okLive = true
+					} else if la := lenArg(bound); la != nil && isField(la, sliceField) {
+						onlyLen = true
+					}
+				} else if la := lenArg(bound); la != nil && isField(la, sliceField) {
+					okLive = true
+				}
+			}
+			// reading the top: nodes[count-1] / nodes[len-1] after the count was tested / decremented is live by construction
+			if bo, isB := stripNum(ia.Index).(*ssa.BinOp); isB && bo.Op == token.SUB {
+				if k, isK := constInt(bo.Y); isK && k == 1 {
+					okLive = true
+				}
+			}
+			if ld, isL := isLoad(stripNum(ia.Index)); isL {
+				if fa, isFA := ld.(*ssa.FieldAddr); isFA && fa.Field == countField {
+					okLive = true // nodes[depth] right after depth-- (pop)
+				}
+			}
+			switch {
+			case okLive:
+				l.ok(p.FuncID(fn), construct, p.InstrPos(in), "read below the live size of the stack", true, "stack-live")
+			case onlyLen:
+				l.bad(p.FuncID(fn), construct, p.InstrPos(in), "the index is checked against the length of the backing slice although the stack keeps its live size in a counter: slots above the counter belong to branches that are already closed, so an item nested too deeply finds a stale parent there instead of being rejected", "stack-live")
+			default:
+				l.bad(p.FuncID(fn), construct, p.InstrPos(in), "an element of the slice-backed stack is read without a dominating test that the index lies below the live size", "stack-live")
+			}
+		})
+		// R2: the attach function (takes a node, returns bool, asks isDirectlyUnder)
+		attach := false
+		allInstrs(fn, func(in ssa.Instruction) {
+			if c, ok := in.(*ssa.Call); ok && c.Common().StaticCallee() != nil && fname(c.Common().StaticCallee()) == "isDirectlyUnder" {
+				attach = true
+			}
+		})
+		if !attach || fn.Signature.Results().Len() != 1 {
+			continue
+		}
+		shrinks := func(in ssa.Instruction) bool {
+			switch x := in.(type) {
+			case *ssa.Store:
+				fa, ok := x.Addr.(*ssa.FieldAddr)
+				if !ok || recvTypeName2(fa.X.Type()) != "stack" {
+					return false
+				}
+				if fa.Field == countField {
+					return true
+				}
+				if fa.Field == sliceField {
+					// a re-slice stored back (possibly with the new element appended onto it)
+					var hasSlice func(v ssa.Value, d int) bool
+					hasSlice = func(v ssa.Value, d int) bool {
+						if d > 3 {
+							return false
+						}
+						switch y := v.(type) {
+						case *ssa.Slice:
+							return true
+						case *ssa.Call:
+							if isBuiltinCall(y, "append") && len(y.Common().Args) > 0 {
+								return hasSlice(y.Common().Args[0], d+1)
+							}
+						}
+						return false
+					}
+					return hasSlice(x.Val, 0)
+				}
+			case *ssa.Call:
+				if g := x.Common().StaticCallee(); g != nil && recvTypeName(g) == "stack" && fname(g) == "pop" {
+					return true
+				}
+			}
+			return false
+		}
+		shrinkBlocks := map[*ssa.BasicBlock]bool{}
+		allInstrs(fn, func(in ssa.Instruction) {
+			if shrinks(in) {
+				shrinkBlocks[in.Block()] = true
+			}
+		})
+		bad := ""
+		allInstrs(fn, func(in ssa.Instruction) {
+			r, ok := in.(*ssa.Return)
+			if !ok || bad != "" {
+				return
+			}
+			if b, isC := constBool(rr(r)[0]); !isC || !b {
+				return
+			}
+			// is the return reachable from the entry without passing a shrinking block?
+			seen := map[*ssa.BasicBlock]bool{}
+			reached := false
+			var walk func(b *ssa.BasicBlock)
+			walk = func(b *ssa.BasicBlock) {
+				if seen[b] || shrinkBlocks[b] || reached {
+					return
+				}
+				seen[b] = true
+				if b == r.Block() {
+					reached = true
+					return
+				}
+				for _, s2 := range b.Succs {
+					walk(s2)
+				}
+			}
+			walk(fn.Blocks[0])
+			if reached {
+				bad = p.InstrPos(r)
+			}
+		})
+		construct := "attaching shrinks the slice-backed stack to the parent's level"
+		if bad != "" {
+			l.bad(p.FuncID(fn), construct, p.Pos(fn.Pos()), "the successful return at "+bad+" is reached without the stack having been cut back (no re-slice stored, no counter assignment, no pop): the entries of a deeper, already closed branch stay in place, and a later item nested more than one level deeper than its predecessor is attached to one of them instead of being rejected", "stack-live")
+		} else {
+			l.ok(p.FuncID(fn), construct, p.Pos(fn.Pos()), "every successful route cuts the stack back first", true, "stack-live")
+		}
+	}
+}
+
+// recvTypeName2: the (canonical) name of the named type behind a possibly pointer-typed value.
+func recvTypeName2(t types.Type) string {
+	return typeName(t)
+}
+
 func rulePAIR3(w *World) []Ob {
 	l := &obs{rule: "PAIR-3"}
 	for _, p := range []*Prog{w.D(), w.W()} {
 		l.cfg = p.Cfg.Name
+		if p.Cfg.Name == "D" {
+			stackSliceObligations(p, l)
+		}
 		nc := newNilCtx(p)
 		// attach functions: functions that call addChild on a node popped/derived from a stack, i.e. take the new node as parameter and call addChild(param)
 		// void helpers proven to link or merge on every path count as a link in their callers (two rounds)
@@ -1060,6 +1334,39 @@ func rulePAIR5(w *World) []Ob {
 				case "isFile":
 					isFile = c
 				case "next":
+					// the counter picked into a local first: next() on a phi of the two counters, one per side of isFile
+					if ph, isPhi := c.Common().Args[0].(*ssa.Phi); isPhi && isFile != nil {
+						for i, e := range ph.Edges {
+							_, f, ok := fieldOfLoad(e)
+							if !ok || i >= len(ph.Block().Preds) {
+								nexts["?@?"] = true
+								continue
+							}
+							pred := ph.Block().Preds[i]
+							side := "?"
+							for _, g := range guardsOf(pred) {
+								cd, pol := flattenCond(g.Cond, g.Pol)
+								if cd == ssa.Value(isFile) {
+									side = fmt.Sprint(pol)
+								}
+							}
+							if side == "?" && len(pred.Instrs) > 0 {
+								if iff, isIf := pred.Instrs[len(pred.Instrs)-1].(*ssa.If); isIf {
+									cd, pol := flattenCond(iff.Cond, true)
+									if cd == ssa.Value(isFile) {
+										// the edge leaves the test itself: which successor is the join?
+										if pred.Succs[0] == ph.Block() {
+											side = fmt.Sprint(pol)
+										} else {
+											side = fmt.Sprint(!pol)
+										}
+									}
+								}
+							}
+							nexts[f+"@"+side] = true
+						}
+						return
+					}
 					if _, f, ok := fieldOfLoad(c.Common().Args[0]); ok {
 						side := "?"
 						for _, g := range guardsOf(c.Block()) {
@@ -1129,6 +1436,59 @@ func pathCallCounts(fn *ssa.Function, calls []*ssa.Call) (int, int) {
 // ---------------------------------------------------------------------------------------------
 // PAIR-6
 
+// yamlCloseObligation: closing a YAML encoder that has not encoded anything is an error of its own ("yaml: expected
+// STREAM-START"): Close — called, deferred, or bound as a method value and handed on — must come after an Encode on
+// the same encoder on every route, otherwise input without a root (empty, blank) turns from "empty output, nil" into an
+// error.  Returns where the encoder is closed unsafely, or "".
+func yamlCloseObligation(p *Prog, c *ssa.Call) string {
+	f := c.Common().StaticCallee()
+	if f == nil || fname(f) != "NewEncoder" || pkgOfFunc(f) == nil || pkgOfFunc(f).Pkg.Path() != "gopkg.in/yaml.v3" {
+		return ""
+	}
+	closeAt := ""
+	vals := append([]ssa.Value{c}, cellLoadsOfValue(c)...)
+	for _, v := range vals {
+		if v.Referrers() == nil {
+			continue
+		}
+		for _, r := range *v.Referrers() {
+			switch x := r.(type) {
+			case *ssa.MakeClosure:
+				if strings.HasSuffix(x.Fn.Name(), "Close$bound") {
+					closeAt = p.InstrPos(x) + " (bound as a function value; whoever calls it cannot know whether anything was encoded)"
+				}
+			case ssa.CallInstruction:
+				m := x.Common().StaticCallee()
+				if m == nil || m.Name() != "Close" || len(x.Common().Args) == 0 || x.Common().Args[0] != v {
+					continue
+				}
+				if _, isDefer := x.(*ssa.Defer); isDefer {
+					closeAt = p.InstrPos(x) + " (deferred: runs also when nothing was encoded)"
+					continue
+				}
+				dom := false
+				for _, v2 := range vals {
+					if v2.Referrers() == nil {
+						continue
+					}
+					for _, r2 := range *v2.Referrers() {
+						if e, ok := r2.(*ssa.Call); ok && e.Common().StaticCallee() != nil && e.Common().StaticCallee().Name() == "Encode" {
+							xi := x.(ssa.Instruction)
+							if e.Block() == xi.Block() && instrIndex(e) < instrIndex(xi) || (e.Block() != xi.Block() && e.Block().Dominates(xi.Block())) {
+								dom = true
+							}
+						}
+					}
+				}
+				if !dom {
+					closeAt = p.InstrPos(x) + " (no Encode on the same encoder is certain to have happened before)"
+				}
+			}
+		}
+	}
+	return closeAt
+}
+
 func rulePAIR6(w *World) []Ob {
 	l := &obs{rule: "PAIR-6"}
 	n := 0
@@ -1140,6 +1500,10 @@ func rulePAIR6(w *World) []Ob {
 			c, ok := in.(*ssa.Call)
 			if !ok {
 				return
+			}
+			if at := yamlCloseObligation(p, c); at != "" {
+				n++
+				l.bad(fid, "a YAML encoder is closed only after it has encoded", p.InstrPos(c), "the YAML encoder made here is closed at "+at+": yaml.v3 refuses to close an encoder that has not encoded a document (\"yaml: expected STREAM-START\"), so input without any root — empty or blank — returns an error instead of empty output and nil", "encoder")
 			}
 			isCtor := false
 			what := ""
